@@ -393,13 +393,15 @@ func (r *ResolverGenerator) jsonResolverMethods() (m []*codegen.Method) {
 			),
 			jen.Id("aliasMap").Op(":=").Id(toAliasMapFnName).Call(jen.Id("rawContext")),
 			jen.Commentf("Begin: Private lambda to handle a single string %q value. Makes code generation easier.", typePropertyName),
+			jen.Commentf("errUnknownName is private to this call so that it cannot be confused with an error returned by a callback."),
+			jen.Id("errUnknownName").Op(":=").Qual("fmt", "Errorf").Call(jen.Lit("type name is not known")),
 			jen.Id("handleFn").Op(":=").Func().Parens(
 				jen.Id("typeString").String(),
 			).Error().Block(
 				aliasFetching,
 				impl.Else().Block(
 					jen.Return(
-						jen.Id(errorUnhandled),
+						jen.Id("errUnknownName"),
 					),
 				),
 			),
@@ -411,8 +413,14 @@ func (r *ResolverGenerator) jsonResolverMethods() (m []*codegen.Method) {
 				).Op(":=").Id("typeValue").Assert(jen.String()),
 				jen.Id("ok"),
 			).Block(
+				jen.If(
+					jen.Err().Op(":=").Id("handleFn").Call(jen.Id("typeStr")),
+					jen.Err().Op("!=").Id("errUnknownName"),
+				).Block(
+					jen.Return(jen.Err()),
+				),
 				jen.Return(
-					jen.Id("handleFn").Call(jen.Id("typeStr")),
+					jen.Id(errorUnhandled),
 				),
 			).Else().If(
 				jen.List(
@@ -442,7 +450,7 @@ func (r *ResolverGenerator) jsonResolverMethods() (m []*codegen.Method) {
 						).Block(
 							jen.Return(jen.Nil()),
 						).Else().If(
-							jen.Err().Op("==").Id(errorUnhandled),
+							jen.Err().Op("==").Id("errUnknownName"),
 						).Block(
 							jen.Commentf("Keep trying other types: only if all fail do we return this error."),
 							jen.Continue(),
